@@ -536,11 +536,16 @@ func (c *c08) encodeLength1(fn *ssa.Function, name string) {
 				}
 			}
 		}
+		// what must hold is about positions, not about the direction of the loop: the octet
+		// at index j is byte(length >> 8·(N-1-j)), for j = k (forward fill) or j = N-1-k
+		wantShift := N.AddK(-1).Sub(idx).ScaleI(8)
 		switch {
-		case !shift.Equal(k.ScaleI(8)):
+		case !idx.Equal(k) && !idx.Equal(wantIdx):
+			c.notDecided(rule, construct, c.ipos(stI), "iteration k writes index "+z.String(idx)+", neither k nor N-1-k")
+		case !shift.Equal(wantShift) && idx.Equal(wantIdx) && !shift.Equal(k.ScaleI(8)):
 			r.Fail(rule, construct, c.ipos(stI), "iteration k stores byte(length >> "+z.String(shift)+"); successive octets must be 8 bits apart (>> 8·k)")
-		case !idx.Equal(wantIdx):
-			r.Fail(rule, construct, c.ipos(stI), fmt.Sprintf("iteration k stores bits 8k..8k+7 of the length at index %s; DER long form is big-endian: they belong at index %s (most significant octet first)", z.String(idx), z.String(wantIdx)))
+		case !shift.Equal(wantShift):
+			r.Fail(rule, construct, c.ipos(stI), fmt.Sprintf("the octet at index %s is byte(length >> %s); DER long form is big-endian: index j holds byte(length >> 8·(N-1-j)), i.e. >> %s here (most significant octet first)", z.String(idx), z.String(shift), z.String(wantShift)))
 		case !okCont || !cont.Equal(wantIdx):
 			r.Fail(rule, construct, c.ipos(stI), "the fill loop does not run for exactly k = 0 .. N-1 (continue condition: "+z.String(cont)+" >= 0)")
 		default:
